@@ -6,6 +6,7 @@
 package message
 
 //@ global closedchan != nil && closed(closedchan)
+//@ global ErrOutputInNoPublisherHandler != nil
 
 //@ type Message
 //@   self m
@@ -19,6 +20,7 @@ package message
 //@ func init
 //@   nopanic
 //@   ensures closedchan != nil && closed(closedchan) [closedchan-closed]
+//@   ensures ErrOutputInNoPublisherHandler != nil [sentinel-error-set]
 
 //@ func NewMessage
 //@   nopanic
@@ -101,3 +103,48 @@ package message
 //@   inv loop 1: msg.UUID == m.UUID && msg.Payload == m.Payload && msg.ctx == nil && msg.ackSentType == noAckSent && fresh(msg.ack) && fresh(msg.noAck) && msg.ack != msg.noAck && !closed(msg.ack) && !closed(msg.noAck) [rest-as-constructed]
 //@   modifies loop 1: map(msg.Metadata)
 //@   modifies nothing
+
+//@ func (*Message).Context
+//@   requires m != nil
+//@   nopanic
+//@   pure
+//@   inline
+//@   ensures result != nil [never-nil]
+//@   ensures m.ctx != nil ==> result == m.ctx [own-context]
+
+//@ func (*Message).SetContext
+//@   requires m != nil
+//@   nopanic
+//@   ensures m.ctx == ctx [set]
+//@   modifies m.ctx
+
+//@ func (*handler).addHandlerContext
+//@   requires h != nil
+//@   maypanic
+//@   modifies field(Message.ctx)
+
+//@ func (disabledPublisher).Publish
+//@   nopanic
+//@   pure
+//@   ensures result != nil && result == ErrOutputInNoPublisherHandler [always-refuses]
+
+//@ spec handlerFailed(k int) bool := panicked(H, k) || ret(H, 1, k) != nil
+//@ spec publishFailed(k0 int, k1 int) bool := k1 == k0 + 1 && (panicked(P, k0) || ret(P, 0, k0) != nil)
+
+//@ func (*handler).handleMessage
+//@   requires h != nil && msg != nil && handler != nil
+//@   ghost consumes-wg h.runningHandlersWg
+//@   callee H = handler
+//@   callee P = h.publisher.Publish
+//@   nopanic
+//@   ensures msg.ackSentType != noAckSent [settled]
+//@   ensures calls(H) == old(calls(H)) + 1 [handler-called-once]
+//@   ensures calls(P) <= old(calls(P)) + 1 [publish-at-most-once]
+//@   ensures panicked(H, old(calls(H))) || ret(H, 1, old(calls(H))) != nil ==> calls(P) == old(calls(P)) [no-publish-on-handler-failure]
+//@   ensures len(ret(H, 0, old(calls(H)))) == 0 ==> calls(P) == old(calls(P)) [no-empty-publish]
+//@   ensures calls(P) == old(calls(P)) + 1 ==> arg(P, 0, old(calls(P))) == h.publishTopic && arg(P, 1, old(calls(P))) == ret(H, 0, old(calls(H))) [publishes-exactly-the-outputs-to-the-publish-topic]
+//@   ensures handlerFailed(old(calls(H))) || publishFailed(old(calls(P)), calls(P)) || (len(ret(H, 0, old(calls(H)))) > 0 && h.publisher == nil) ==> ncalls("(*Message).Nack") == old(ncalls("(*Message).Nack")) + 1 && ncalls("(*Message).Ack") == old(ncalls("(*Message).Ack")) [nack-on-failure]
+//@   ensures ncalls("(*Message).Ack") == old(ncalls("(*Message).Ack")) + 1 ==> !handlerFailed(old(calls(H))) && !publishFailed(old(calls(P)), calls(P)) && ncalls("(*Message).Nack") == old(ncalls("(*Message).Nack")) [ack-only-on-success]
+//@   ensures ncalls("(*Message).Ack") + ncalls("(*Message).Nack") == old(ncalls("(*Message).Ack") + ncalls("(*Message).Nack")) + 1 [router-settles-exactly-once]
+//@   ensures wgtoken(h.runningHandlersWg) == 0 [done-once]
+//@   assert @call:(*Message).Ack: !handlerFailed(calls(H) - 1) && (len(ret(H, 0, calls(H) - 1)) == 0 || (calls(P) >= 1 && !panicked(P, calls(P) - 1) && ret(P, 0, calls(P) - 1) == nil)) [ack-after-successful-publish]
